@@ -172,6 +172,11 @@ def run(chk):
                 "(half of the extended ones above 0x7FF), Intel/Motorola signals of widths 1..64 at random non-overlapping placements, simple (all) and "
                 "extended (dbc, json) multiplexing; 8 payloads per frame. one evaluation = one frame compared after the round trip; non-trivial = extended id, "
                 "length > 8 or a Motorola signal crossing a byte boundary; distinct by (configuration, frame normal form)")
+    chk.notes.append("envelope decisions (DESIGN.md Appendix A): SYM has no place for a non-multiplexed signal in a multiplexed frame (the writer repeats it "
+                     "in every Mux= block, the reader returns one copy per block with that block's selector) - generated SYM multiplexed frames hold the "
+                     "multiplexer and group signals only; KCD multiplexers are Intel, unsigned, unscaled; extended multiplexing only for DBC and JSON; "
+                     "cluster files are generated with file-wide unique frame names (and signal names for ARXML); frames flagged for extended multiplexing "
+                     "without any multiplexed signal are treated as plain frames")
     ok = chk.build_and_audit()
     cm = core.import_impl()
     C = cm.canmatrix
